@@ -379,6 +379,7 @@ def r06b(ctx):
                            ("braket", "bra-ket partners give one object"), ("braket sign", "bra-ket partners differ by bra_ket_sym")):
             ctx.check(rule, fn, kind not in bad, f"{cname}: {fact} ({n_eval} constructions)", bad.get(kind, ""),
                       key=f"{cname} {kind}")
+        ctx.floor(rule, f"evaluated constructions of {cname}", n_eval, 100)
 
 
 # ---------------------------------------------------------------------- R06c
@@ -1055,7 +1056,18 @@ def r06e(ctx):
         sk.sx_polynom_level(ctx, "R06e", m, args, real_after)
 
 
+def _floors(ctx):
+    for rule, minimum in (("R06a", 4), ("R06c", 40), ("R06d", 100), ("R06e", 300), ("R06f", 400)):
+        if ctx.want(rule) and (ctx.only_rule is None or ctx.only_rule == rule):
+            ctx.floor(rule, "evaluated scenarios", ctx.per_rule.get(rule, {}).get("obligations", 0), minimum)
+
+
 def run(ctx):
+    _run(ctx)
+    _floors(ctx)
+
+
+def _run(ctx):
     if ctx.want("R06a"):
         r06a(ctx)
     if ctx.want("R06b"):
